@@ -47,6 +47,12 @@ func genReceipt(g *genCtx) {
 					v[r.Intn(10)] = ' '
 					v[r.Intn(10)] = 0
 				}
+			} else if r.Intn(4) == 0 {
+				// non-ASCII values: Latin-1 / GBK octets (not valid UTF-8) and letters whose case mapping changes length
+				pieces := []string{"\xe9", "\xd6\xd0", "\u212a", "\u0130", "é", "中", "A", "7"}
+				for len(v) < L {
+					v = append(v, pieces[r.Intn(len(pieces))]...)
+				}
 			} else {
 				v = randBytesFrom(r, L, alpha)
 			}
